@@ -95,6 +95,52 @@ func runNullArm(c *core.Ctx) []core.Obligation {
 				continue
 			}
 			b.ok(key, c.FuncPos(fn), "null handled elsewhere: "+how)
+			if how == "class-null" {
+				// encoding/json does not hand null to UnmarshalText: it stores it like for any
+				// other type — a map or a slice (with UnmarshalText on its pointer) becomes nil.
+				// The Null case of the classifier must therefore do something before returning.
+				k2 := key + ":zeroes-references"
+				acts := false
+				for _, blk := range fn.Blocks {
+					ifi, ok := blk.Instrs[len(blk.Instrs)-1].(*ssa.If)
+					if !ok {
+						continue
+					}
+					bo, ok := ifi.Cond.(*ssa.BinOp)
+					if !ok || bo.Op != token.EQL {
+						continue
+					}
+					isNull := false
+					for _, op := range []ssa.Value{bo.X, bo.Y} {
+						if kc, isK := op.(*ssa.Const); isK && kc.Value != nil && kc.Value.Kind() == constant.Int && strings.HasSuffix(kc.Type().String(), "json.Kind") {
+							if n, _ := constant.Int64Val(kc.Value); n == 1 {
+								isNull = true
+							}
+						}
+					}
+					if !isNull {
+						continue
+					}
+					for rb := range reachableFrom(blk.Succs[0], map[*ssa.BasicBlock]bool{blk.Succs[1]: true}) {
+						for _, ins := range rb.Instrs {
+							if call, ok := ins.(ssa.CallInstruction); ok {
+								n := calleeName(call.Common())
+								if strings.HasSuffix(n, "reflect.Value).Set") || strings.HasSuffix(n, "reflect.Value).SetZero") || strings.HasSuffix(n, "typedmemclr") || strings.HasSuffix(n, "reflect.Zero") {
+									acts = true
+								}
+							}
+							if st, ok := ins.(*ssa.Store); ok && isNilConst(st.Val) {
+								acts = true
+							}
+						}
+					}
+				}
+				if acts {
+					b.ok(k2, c.FuncPos(fn), "the Null case clears the destination where it is a reference")
+				} else {
+					b.bad(k2, c.FuncPos(fn), name+" returns at once on null: a map or slice type whose pointer implements TextUnmarshaler keeps its old contents, where encoding/json (which never hands null to UnmarshalText) sets it to nil — {\"M\":null} into struct{M M} with type M map[string]string and func (*M) UnmarshalText leaves M populated")
+				}
+			}
 			continue
 		}
 		if listed {
